@@ -41,10 +41,40 @@ let int_of_z = function Z0 -> 0 | Zpos p -> int_of_pos p | Zneg p -> - (int_of_p
 let rec nat_of_int n = if n <= 0 then O else S (nat_of_int (n - 1))
 let rec int_of_nat = function O -> 0 | S n -> 1 + int_of_nat n
 
-let zi (x : sx) : z = match x with A a -> z_of_int (int_of_string a) | _ -> failwith "int expected"
+(* arbitrary precision: decimal strings <-> Z through the extracted Z arithmetic, 15 digits at a time
+   (OCaml's 63-bit int is only used for the chunks) *)
+let chunk = z_of_int 1000000000000000
+let z_of_string (a : string) : z =
+  let neg = String.length a > 0 && a.[0] = '-' in
+  let digits = if neg || (String.length a > 0 && a.[0] = '+') then String.sub a 1 (String.length a - 1) else a in
+  let n = String.length digits in
+  if n = 0 then failwith "int expected";
+  String.iter (fun c -> if c < '0' || c > '9' then failwith ("int expected: " ^ a)) digits;
+  let rec go (acc : z) (i : int) : z =
+    if i >= n then acc
+    else
+      let len = if (n - i) mod 15 = 0 then 15 else (n - i) mod 15 in
+      let part = int_of_string (String.sub digits i len) in
+      go (Z.add (Z.mul acc chunk) (z_of_int part)) (i + len) in
+  let v = go Z0 0 in
+  if neg then Z.opp v else v
+let string_of_z (v : z) : string =
+  let neg = (match v with Zneg _ -> true | _ -> false) in
+  let rec go (v : z) (acc : string list) : string list =
+    match v with
+    | Z0 -> acc
+    | _ ->
+      let (q, r) = Z.div_eucl v chunk in
+      (match q with
+       | Z0 -> string_of_int (int_of_z r) :: acc
+       | _ -> go q (Printf.sprintf "%015d" (int_of_z r) :: acc)) in
+  match v with
+  | Z0 -> "0"
+  | _ -> (if neg then "-" else "") ^ String.concat "" (go (Z.abs v) [])
+let zi (x : sx) : z = match x with A a -> z_of_string a | _ -> failwith "int expected"
 let ni (x : sx) : nat = match x with A a -> nat_of_int (int_of_string a) | _ -> failwith "nat expected"
 let bi (x : sx) : bool = match x with A "1" | A "true" -> true | A _ -> false | _ -> failwith "bool expected"
-let sz (v : z) : sx = A (string_of_int (int_of_z v))
+let sz (v : z) : sx = A (string_of_z v)
 let sn (v : nat) : sx = A (string_of_int (int_of_nat v))
 
 (* ---- trees *)
@@ -275,7 +305,7 @@ let upd_of (x : sx) : upd =
   | _ -> failwith "upd"
 
 (* ---- M6: helpers *)
-let sq (v : q) : sx = L [A "q"; sz v.qnum; A (string_of_int (int_of_pos v.qden))]
+let sq (v : q) : sx = L [A "q"; sz v.qnum; sz (Zpos v.qden)]
 let rec nest_of (x : sx) : nest =
   match x with
   | A _ -> NAtom (zi x)
